@@ -158,8 +158,87 @@ def c13_sweep(boot):
     return violations, counters
 
 
+def c13_late_lookup(boot, req):
+    """Lookups must not depend on earlier lookups: every text in req["texts"] (the exact symbols
+    and names of all shipped units) is parsed *before* the remaining modules are imported
+    (where it may read as <prefix><unit> or not at all), then the modules in req["late"] are
+    imported and every text is parsed again.  A twin world forked here skips the early lookups;
+    both must report the same outcome for every text."""
+    import importlib
+    import json
+    import os
+
+    import measured as L
+
+    texts, late = req["texts"], req["late"]
+
+    def outcome(t):
+        try:
+            y = L.Unit.parse(t)
+        except Exception as ex:
+            return ["raise", type(ex).__name__]
+        return ["ok", list(y.names), list(y.symbols), [y.prefix.base, str(y.prefix.exponent)],
+                sorted([(f.names[0] if f.names else "?"), e] for f, e in y.factors.items())]
+
+    def after_import():
+        for m in late:
+            importlib.import_module("measured." + m)
+        return {t: outcome(t) for t in texts}
+
+    r, w = os.pipe()
+    pid = os.fork()
+    if pid == 0:                                   # the twin without earlier lookups
+        try:
+            os.close(r)
+            data = json.dumps(after_import()).encode()
+            while data:
+                n = os.write(w, data)
+                data = data[n:]
+        finally:
+            os._exit(0)
+    os.close(w)
+    chunks = []
+    while True:
+        c = os.read(r, 1 << 16)
+        if not c:
+            break
+        chunks.append(c)
+    os.close(r)
+    os.waitpid(pid, 0)
+    if not chunks:
+        raise RuntimeError("twin world produced nothing")
+    base = json.loads(b"".join(chunks))
+    early = 0
+    for t in texts:
+        try:
+            L.Unit.parse(t)
+            early += 1
+        except Exception:
+            pass
+    mine = after_import()
+    violations, seen = [], set()
+    counters = {"C13.lookup-history.checked": len(texts), "C13.lookup-history.early-lookups-resolved": early,
+                "C13.lookup-history.resolved-after-import": sum(1 for v in mine.values() if v[0] == "ok")}
+    for t in texts:
+        if mine[t] != base[t]:
+            kind = "other-unit" if mine[t][0] == base[t][0] == "ok" else "raise-vs-ok"
+            sig = "C13/lookup-history/" + kind
+            counters[sig] = counters.get(sig, 0) + 1
+            if sig not in seen:
+                seen.add(sig)
+                violations.append({"clause": "C13.lookup-history", "signature": sig, "step": 0,
+                                   "detail": {"text": t, "with_earlier_lookups": mine[t],
+                                              "without_earlier_lookups": base[t]}})
+    return violations, counters
+
+
 def run(req, boot):
     what = req["what"]
+    if what == "c13_late_lookup":
+        violations, counters = c13_late_lookup(boot, req)
+        log = [canon({"counters": counters, "violations": sorted(v["signature"] for v in violations)})]
+        return {"digest": digest(log), "n_ops": counters["C13.lookup-history.checked"], "violations": violations,
+                "counters": counters, "probes": {}, "faults_fired": {"F6": 1}}
     if what == "c13_sweep":
         violations, counters = c13_sweep(boot)
         log = [canon({"counters": counters, "violations": sorted(v["signature"] for v in violations)})]
